@@ -254,7 +254,7 @@ func DefaultTicks(st []uint8) []int64 {
 		case StSmall:
 			out = append(out, (0x81+7*k)%256)
 		case StLarge:
-			v := int64(0x1234) + 0x0101*k
+			v := int64(0x0123) + (0x0101*k)%0x7e00 // stays inside the 16-bit signed range for long sequences
 			if k%2 == 0 {
 				v = -v
 			}
